@@ -203,7 +203,7 @@ PROPS["C10"] = dict(
 PROPS["C11"] = dict(
     level="exploration",
     runs=dict(quick=5000, thorough=100000), budget_s=dict(quick=170, thorough=1700), gomaxprocs=4,
-    rule="3 of 4 runs: scanner tasks calling Next one item at a time, interleaved by the seeded scheduler with 1-3 writers (Put/Delete on 8-90 keys aimed at one bucket chain, so the index splits and slots shift during the scan) and compaction; each returned pair must carry a value put for that key before the Next returned, "
+    rule="3 of 4 runs: scanner tasks calling Next one item at a time, interleaved by the seeded scheduler with 1-3 writers (Put/Delete on 8-90 keys aimed at one bucket chain, so the index splits and slots shift during the scan; 1 run in 3: two chains of low-bit colliders plus spread keys, 50-70% loaded before the scans and the rest put during them, so overflow buckets freed by a split are reused by the other chain under a paused scan) and compaction; each returned pair must carry a value put for that key before the Next returned, "
          "each key unchanged for the whole scan must appear, the final quiescent scan must be exact. 1 of 4 runs: sequential histories with exact scans (multiset == model, ErrIterationDone afterwards). distinct_nontrivial = distinct schedule digests / states",
     real=REAL_SCHED, stub=STUB_SCHED, assumptions=SCHED_ASSUME,
     must_reach=dict(quick=["scans", "scan_overlapped_writes", "scan_run_with_splits", "index_split", "overflow_bucket_allocated"], thorough=["scan_run_with_splits"]),
